@@ -5,6 +5,7 @@ import (
 	"fmt"
 	"sort"
 	"strings"
+	"time"
 
 	proto "github.com/kubewharf/kubebrain-client/api/v2rpc"
 
@@ -338,10 +339,16 @@ func c13RunTiKV(hist []int) *mc.SeqOut {
 	return out
 }
 
-func c13Run(maxBorders int) func(cfg int, hist []int) *mc.SeqOut {
+// configurations: 0 = injected layouts of up to 2 borders, 1 = real region splits of the tikv mock cluster,
+// 2 = injected layouts of up to 3 borders (pairs over the full candidate set, triples over the reduced set)
+func c13Run() func(cfg int, hist []int) *mc.SeqOut {
 	return func(cfg int, hist []int) *mc.SeqOut {
 		if cfg == 1 {
 			return c13RunTiKV(hist)
+		}
+		maxBorders := 2
+		if cfg == 2 {
+			maxBorders = 3
 		}
 		out := &mc.SeqOut{}
 		alpha := c13Alphabet()
@@ -450,30 +457,30 @@ func init() {
 		Rule:   "explicit-state BFS over write histories on 3 keys (multi-version, tombstoned, re-created); in every state every subset of up to 2 (thorough 3) partition borders drawn from all stored internal keys and well-formed internal keys (stored and absent raw keys x revisions 0,1,existing,absent,max), with the partitions reported in every order, is installed under the real scanner; at every read revision an unlimited List, Count, a whole-interval stream and the concatenation of streams over the advertised partitions are compared with the unpartitioned snapshot (versioned-map model); stream batch size shrunk to 2; every data batch must carry the read revision and every stream exactly one terminator, last",
 		Assume: []string{"partition layout injected at the storage.KvStorage seam over memkv (thorough: real region splits of the tikv mock cluster)", "single client, default schedule"},
 		Exec: func(j *mc.Job) *mc.JobResult {
-			mb := 2
-			if j.Tier == "thorough" {
-				mb = 3
-			}
-			return mc.SeqExec(j, c13Run(mb))
+			return mc.SeqExec(j, c13Run())
 		},
 		Drive: func(c *mc.Ctx) {
 			depth := 3
 			mc.SeqFullDepth = 1 // every state costs thousands of partitionings; its oracle reads, it does not write
 			mc.SeqOpsPerJob = 1 // one (expensive) execution per worker job
-			var st2 mc.SeqStats
-			if c.Tier == "thorough" {
-				// real region borders on the tikv mock cluster, within a third of the budget
-				full := c.Deadline
-				c.Deadline = c.Start.Add(full.Sub(c.Start) / 3)
-				st2 = mc.DriveSeq(c, "bfs", 1, len(c13Alphabet()), 2)
-				c.Cov["bfs_tikv_real_regions"] = st2
-				c.Deadline = full
-			}
 			st := mc.DriveSeq(c, "bfs", 0, len(c13Alphabet()), depth)
 			c.Cov["bfs"] = st
-			st.States += st2.States
-			st.Transitions += st2.Transitions
-			st.Evals += st2.Evals
+			if c.Tier == "thorough" {
+				// real region borders on the tikv mock cluster, within a third of the remaining budget,
+				// then layouts of up to three borders
+				full := c.Deadline
+				c.Deadline = time.Now().Add(full.Sub(time.Now()) / 3)
+				st2 := mc.DriveSeq(c, "bfs", 1, len(c13Alphabet()), 2)
+				c.Cov["bfs_tikv_real_regions"] = st2
+				c.Deadline = full
+				st3 := mc.DriveSeq(c, "bfs", 2, len(c13Alphabet()), depth)
+				c.Cov["bfs_three_borders"] = st3
+				for _, o := range []mc.SeqStats{st2, st3} {
+					st.States += o.States
+					st.Transitions += o.Transitions
+					st.Evals += o.Evals
+				}
+			}
 			c.Cov["states"] = st.States
 			c.Cov["transitions"] = st.Transitions
 			c.Cov["oracle_evaluations"] = st.Evals
